@@ -165,6 +165,10 @@ def native_korder(seed):
         if Wref is None:
             Wref = [rng.standard_normal((2, len(at.Gk2c[ik]), at.occ.Nstate)) + 1j * rng.standard_normal((2, len(at.Gk2c[ik]), at.occ.Nstate)) for ik in range(3)]
             order0 = perm
+        if Wref is not None and "f" not in locals():
+            # fillings that differ between the k-points (as after smearing): one table, permuted along with the k-points
+            f = rng.uniform(0.1, 1.0, (3, 2, at.occ.Nstate))
+        at.occ._f = f[[order0.index(p) for p in perm]]
         W = [Wref[order0.index(p)] for p in perm]
         scf.W = orth(at, W)
         scf._precompute()
@@ -172,7 +176,7 @@ def native_korder(seed):
         e = scf.energies
         res.append({f.name: float(getattr(e, f.name)) for f in dataclasses.fields(e)})
     diffs = {k: abs(res[0][k] - res[1][k]) for k in res[0]}
-    return max(diffs.values()), dict(check="Si/H, triclinic cell, PBE, unrestricted, k-points listed as (0,1,2) and (2,0,1)", diffs=diffs)
+    return max(diffs.values()), dict(check="Si/H, triclinic cell, PBE, unrestricted, k-dependent fillings, k-points listed as (0,1,2) and (2,0,1)", diffs=diffs)
 
 
 class KOrderNative:
@@ -224,8 +228,11 @@ class BandEnergies:
         e1, _ = self._eigs(k + b[0], pot)
         e2, _ = self._eigs(k - b[1] + b[2], pot)
         e3, _ = self._eigs(-k, pot)
-        d = dict(k_plus_b1=float(np.abs(e1 - e0).max()), k_minus_b2_plus_b3=float(np.abs(e2 - e0).max()), minus_k=float(np.abs(e3 - e0).max()), hermiticity=h0)
-        return (max(d["k_plus_b1"], d["k_minus_b2_plus_b3"], d["minus_k"]),), dict(check="lowest 6 eigenvalues of the dense H (Si/H, GTH s/p projectors, triclinic cell, fixed real potential)", eigenvalues=e0.tolist(), **d)
+        # a shift that moves k OUTSIDE the cut-off sphere of the wave functions (|k + G| > sqrt(2 ecut)): the basis is the sphere around -k - G
+        e4, _ = self._eigs(k + 3 * b[0] - 2 * b[2], pot)
+        d = dict(k_plus_b1=float(np.abs(e1 - e0).max()), k_minus_b2_plus_b3=float(np.abs(e2 - e0).max()), minus_k=float(np.abs(e3 - e0).max()),
+                 k_plus_3b1_minus_2b3=float(np.abs(e4 - e0).max()), hermiticity=h0)
+        return (max(d["k_plus_b1"], d["k_minus_b2_plus_b3"], d["minus_k"], d["k_plus_3b1_minus_2b3"]),), dict(check="lowest 6 eigenvalues of the dense H (Si/H, GTH s/p projectors, triclinic cell, fixed real potential)", eigenvalues=e0.tolist(), **d)
 
     def __call__(self, ob, tier, seed):
         (worst,), info = self._case(seed)
